@@ -1217,7 +1217,7 @@ Vattrinfo(int32 vgid, int attrindex, char *name, int32 *datatype, int32 *count, 
         HGOTO_ERROR(DFE_BADPTR, FAIL);
     if (vg->otag != DFTAG_VG)
         HGOTO_ERROR(DFE_ARGS, FAIL);
-    if (vg->nattrs <= attrindex || vg->alist == NULL)
+    if (attrindex < 0 || vg->nattrs <= attrindex || vg->alist == NULL)
         /* not that many attrs or bad attr list */
         HGOTO_ERROR(DFE_ARGS, FAIL);
 
@@ -1411,7 +1411,7 @@ Vgetattr(int32 vgid, int attrindex, void *values)
         HGOTO_ERROR(DFE_BADPTR, FAIL);
     if (vg->otag != DFTAG_VG)
         HGOTO_ERROR(DFE_ARGS, FAIL);
-    if (vg->nattrs <= attrindex || vg->alist == NULL)
+    if (attrindex < 0 || vg->nattrs <= attrindex || vg->alist == NULL)
         /* not that many attrs or bad attr_Vg tag/ref */
         HGOTO_ERROR(DFE_ARGS, FAIL);
 
